@@ -4,7 +4,7 @@
    bit-exactly by the correspondence run; `logf` is an oracle (see DESIGN.md §2.6): this part of
    the property is therefore *partial* as far as theorems go. *)
 From Coq Require Import Reals.
-From HpoV Require Import Gen.Consts Model.Base Model.Group Model.Onto Model.F32 Model.IC Model.Script Model.Bulk Proofs.C03P Proofs.C03W Proofs.BulkP Proofs.BuilderICP Proofs.AcyclicP Proofs.AnnotP Proofs.BuilderAnnotP.
+From HpoV Require Import Gen.Consts Model.Base Model.Group Model.Onto Model.F32 Model.IC Model.Script Model.Bulk Proofs.C03P Proofs.C03W Proofs.BulkP Proofs.BuilderICP Proofs.AcyclicP Proofs.AnnotP Proofs.BuilderAnnotP Proofs.ReloadP Proofs.AllPathsP.
 
 Theorem C03_formula_nonnegative : forall n total, (n <= total)%nat -> (0 <= icR n total)%R.
 Proof. exact icR_nonneg. Qed.
@@ -76,6 +76,11 @@ Theorem C03_builder_counts_are_the_inherited_sets : forall icf s codes o, run_sc
   acyclic (o_arena o) /\ ann_ok o.
 Proof. exact run_script_ann_ok. Qed.
 
+(* EACH CONSTRUCTION PATH ([constructed], Proofs/AllPathsP.v): the information content of every term
+   and kind is calculate (number of records of the kind, size of the term's inherited set) *)
+Theorem C03_every_constructed_ontology : forall icf o, constructed icf o -> ic_ok icf o.
+Proof. exact constructed_ic. Qed.
+
 Print Assumptions C03_formula_nonnegative.
 Print Assumptions C03_formula_antitone.
 Print Assumptions C03_formula_zero.
@@ -89,3 +94,4 @@ Print Assumptions C03_bulk_block_is_calls.
 Print Assumptions C03_bulk_script.
 Print Assumptions C03_builder_information_content.
 Print Assumptions C03_builder_counts_are_the_inherited_sets.
+Print Assumptions C03_every_constructed_ontology.
